@@ -17,9 +17,122 @@
    * the directive table: every `self.action(` site with its REGENERATED phase and
      deferred flag (Gen/Facts_C08.sites) joined with the DECLARED read/write table
      (Gen/Facts_C08.declared), and the phase-discipline check [table_ok] over it. *)
-From Coq Require Import List NArith ZArith Bool.
+From Coq Require Import List NArith ZArith Bool String.
 Import ListNotations.
-Require Import Verif.Lib.Wire Verif.Lib.C04Sort Verif.Gen.Facts_C08 Verif.Model.C04.
+Require Import Verif.Lib.Wire Verif.Lib.C04Sort Verif.Model.C08_base Verif.Gen.Facts_C08 Verif.Model.C04.
+Local Open Scope string_scope.
+
+(* ------------------------------------------------------------------ reference model of the directives' emissions
+   HAND-WRITTEN (from reading src/pyramid/config/*.py): which actions each directive declares.  The functions
+   gen_emit_* of Gen/Facts_C08.v are regenerated from the source on every run; Proofs/C08_gen.v proves them equal
+   to these, for every argument valuation. *)
+Definition c1 (site head : string) (o : Z) (d cb : bool) : option (list call) :=
+  Some [mkCall (tx site) (tx head) o d cb].
+Definition guarded (valid : bool) (r : option (list call)) : option (list call) := if valid then r else None.
+Definition seq2 (x y : option (list call)) : option (list call) :=
+  match x, y with Some l, Some m => Some (app l m) | _, _ => None end.
+
+Definition model_emit__add_predicate (v : bool) (a : dargs) := c1 "_add_predicate#0" "%s option" phase1 false true.
+Definition model_emit_add_view_predicate := model_emit__add_predicate.
+Definition model_emit_add_route_predicate := model_emit__add_predicate.
+Definition model_emit_add_subscriber_predicate := model_emit__add_predicate.
+Definition model_emit_add_subscriber (v : bool) (a : dargs) := c1 "add_subscriber#0" "None" default_order false true.
+Definition model_emit_add_response_adapter (v : bool) (a : dargs) := c1 "add_response_adapter#0" "IResponse" default_order false true.
+Definition model_emit_add_traverser (v : bool) (a : dargs) := c1 "add_traverser#0" "traverser" default_order false true.
+Definition model_emit_add_resource_url_adapter (v : bool) (a : dargs) :=
+  c1 "add_resource_url_adapter#0" "resource url adapter" default_order false true.
+Definition model_emit_override_asset (v : bool) (a : dargs) := guarded v (c1 "override_asset#0" "None" phase1 false true).
+Definition model_emit_set_root_factory (v : bool) (a : dargs) := c1 "set_root_factory#0" "IRootFactory" default_order false true.
+Definition model_emit_set_session_factory (v : bool) (a : dargs) := c1 "set_session_factory#0" "ISessionFactory" default_order false true.
+Definition model_emit_set_request_factory (v : bool) (a : dargs) := c1 "set_request_factory#0" "IRequestFactory" default_order false true.
+Definition model_emit_set_response_factory (v : bool) (a : dargs) := c1 "set_response_factory#0" "IResponseFactory" default_order false true.
+(* a placeholder (callable None, neither property nor reify) reserves the name without a callable; property/reify
+   wrap the callable (make_property) so that a callable always exists *)
+Definition model_emit_add_request_method (v : bool) (a : dargs) :=
+  if a_property a || a_reify a then c1 "add_request_method#1" "request extensions" default_order false true
+  else if a_callable_none a then c1 "add_request_method#0" "request extensions" default_order false false
+  else c1 "add_request_method#2" "request extensions" default_order false true.
+Definition model_emit_set_execution_policy (v : bool) (a : dargs) := c1 "set_execution_policy#0" "IExecutionPolicy" default_order false true.
+Definition model_emit_set_locale_negotiator (v : bool) (a : dargs) := c1 "set_locale_negotiator#0" "ILocaleNegotiator" default_order false true.
+Definition model_emit_add_translation_dirs (v : bool) (a : dargs) := guarded v (c1 "add_translation_dirs#0" "None" default_order false true).
+Definition model_emit_add_renderer (v : bool) (a : dargs) := c1 "add_renderer#0" "IRendererFactory" phase1 false true.
+(* route-connect stays in the default phase (declaration order), the request interface goes to PHASE2 *)
+Definition model_emit_add_route (v : bool) (a : dargs) :=
+  guarded v (Some [mkCall (tx "add_route#0") (tx "route-connect") default_order false true;
+                   mkCall (tx "add_route#1") (tx "route") phase2 false true]).
+Definition model_emit_set_security_policy (v : bool) (a : dargs) := c1 "set_security_policy#0" "ISecurityPolicy" phase2 false true.
+Definition model_emit_set_authentication_policy (v : bool) (a : dargs) :=
+  c1 "set_authentication_policy#0" "IAuthenticationPolicy" phase2 false true.
+Definition model_emit_set_authorization_policy (v : bool) (a : dargs) :=
+  Some [mkCall (tx "set_authorization_policy#0") (tx "IAuthorizationPolicy") phase1 false true;
+        mkCall (tx "set_authorization_policy#1") (tx "None") default_order false true].
+Definition model_emit_set_default_permission (v : bool) (a : dargs) := c1 "set_default_permission#0" "IDefaultPermission" phase1 false true.
+Definition model_emit_add_permission (v : bool) (a : dargs) := c1 "add_permission#0" "None" default_order false false.
+Definition model_emit_set_default_csrf_options (v : bool) (a : dargs) :=
+  c1 "set_default_csrf_options#0" "IDefaultCSRFOptions" phase1 false true.
+Definition model_emit_set_csrf_storage_policy (v : bool) (a : dargs) :=
+  c1 "set_csrf_storage_policy#0" "ICSRFStoragePolicy" default_order false true.
+Definition model_emit__add_tween (v : bool) (a : dargs) := guarded v (c1 "_add_tween#0" "tween" default_order false true).
+Definition model_emit_add_tween := model_emit__add_tween.
+(* views: the default phase, Deferred discriminator *)
+Definition model_emit_add_view (v : bool) (a : dargs) := guarded v (c1 "add_view#0" "view" default_order true true).
+Definition model_emit_add_forbidden_view := model_emit_add_view.
+Definition model_emit_add_notfound_view := model_emit_add_view.
+Definition model_emit_add_exception_view := model_emit_add_view.
+Definition model_emit_add_accept_view_order (v : bool) (a : dargs) :=
+  c1 "add_accept_view_order#0" "accept view order" phase1 false true.
+Definition model_emit_add_view_deriver (v : bool) (a : dargs) := guarded v (c1 "add_view_deriver#0" "view deriver" phase1 false true).
+Definition model_emit_set_view_mapper (v : bool) (a : dargs) := c1 "set_view_mapper#0" "IViewMapperFactory" phase1 false true.
+(* a static view named by a URL only records the registration; otherwise route + view + registration *)
+Definition model_emit_static_info_add (v : bool) (a : dargs) :=
+  if a_name_is_url a then c1 "add#0" "None" default_order false true
+  else seq2 (seq2 (model_emit_add_route v a) (model_emit_add_view v a)) (c1 "add#0" "None" default_order false true).
+Definition model_emit_add_static_view := model_emit_static_info_add.
+Definition model_emit_static_info_add_cache_buster (v : bool) (a : dargs) := c1 "add_cache_buster#0" "None" default_order false true.
+Definition model_emit_add_cache_buster := model_emit_static_info_add_cache_buster.
+
+(* ------------------------------------------------------------------ reference model of the registration path
+   HAND-WRITTEN: what Configurator.action / ActionState.action / Configurator.commit do (gen_cfg_action,
+   gen_state_action, gen_commit of Gen/Facts_C08.v are regenerated from config/actions.py) *)
+Definition model_state_action (w : world) (d : disc) (cb : bool) (o : Z) (p : path) (info : N) (intrs : list N) : world :=
+  p_append w (mkQ d cb o p info intrs).
+Definition model_cfg_action (w : world) (d : disc) (cb : bool) (o : Z) (intrs : list N) : world :=
+  let intrs' := if w_introspection w then intrs else [] in     (* introspection off: introspectables ignored *)
+  let info := w_info w in
+  if w_autocommit w then
+    (* executed on the spot, between begin() and end(): discriminator forced, callable run, introspectables registered *)
+    let w1 := p_undefer (p_begin w) d in
+    let w2 := if cb then p_call w1 else w1 in
+    p_end (fold_left (fun w' x => p_register w' x info) intrs' w2)
+  else
+    (* queued with the configurator's include chain and the current action_info *)
+    model_state_action w d cb o (w_includepath w) info intrs'.
+Definition model_commit (w : world) : world := p_fresh_state (p_end (p_execute (p_begin w))).
+
+(* the GENERATED emission functions by directive code (the order is the harness's DIRECTIVES list) *)
+Definition generated_directives : list (bool -> dargs -> option (list call)) :=
+  [gen_emit_add_subscriber; gen_emit_add_subscriber_predicate; gen_emit_add_response_adapter; gen_emit_add_traverser;
+   gen_emit_add_resource_url_adapter; gen_emit_override_asset; gen_emit_set_root_factory; gen_emit_set_session_factory;
+   gen_emit_set_request_factory; gen_emit_set_response_factory; gen_emit_add_request_method; gen_emit_set_execution_policy;
+   gen_emit_set_locale_negotiator; gen_emit_add_translation_dirs; gen_emit__add_predicate; gen_emit_add_renderer;
+   gen_emit_add_route; gen_emit_add_route_predicate; gen_emit_set_security_policy; gen_emit_set_authentication_policy;
+   gen_emit_set_authorization_policy; gen_emit_set_default_permission; gen_emit_add_permission;
+   gen_emit_set_default_csrf_options; gen_emit_set_csrf_storage_policy; gen_emit_add_tween; gen_emit__add_tween;
+   gen_emit_add_view; gen_emit_add_view_predicate; gen_emit_add_accept_view_order; gen_emit_add_view_deriver;
+   gen_emit_set_view_mapper; gen_emit_add_forbidden_view; gen_emit_add_notfound_view; gen_emit_add_exception_view;
+   gen_emit_add_static_view; gen_emit_add_cache_buster; gen_emit_static_info_add; gen_emit_static_info_add_cache_buster].
+Definition model_directives : list (bool -> dargs -> option (list call)) :=
+  [model_emit_add_subscriber; model_emit_add_subscriber_predicate; model_emit_add_response_adapter; model_emit_add_traverser;
+   model_emit_add_resource_url_adapter; model_emit_override_asset; model_emit_set_root_factory; model_emit_set_session_factory;
+   model_emit_set_request_factory; model_emit_set_response_factory; model_emit_add_request_method; model_emit_set_execution_policy;
+   model_emit_set_locale_negotiator; model_emit_add_translation_dirs; model_emit__add_predicate; model_emit_add_renderer;
+   model_emit_add_route; model_emit_add_route_predicate; model_emit_set_security_policy; model_emit_set_authentication_policy;
+   model_emit_set_authorization_policy; model_emit_set_default_permission; model_emit_add_permission;
+   model_emit_set_default_csrf_options; model_emit_set_csrf_storage_policy; model_emit_add_tween; model_emit__add_tween;
+   model_emit_add_view; model_emit_add_view_predicate; model_emit_add_accept_view_order; model_emit_add_view_deriver;
+   model_emit_set_view_mapper; model_emit_add_forbidden_view; model_emit_add_notfound_view; model_emit_add_exception_view;
+   model_emit_add_static_view; model_emit_add_cache_buster; model_emit_static_info_add; model_emit_static_info_add_cache_buster].
+Local Close Scope string_scope.
 
 (* ------------------------------------------------------------------ store model *)
 Inductive value := Val (payload : N) (seen : list (list value)).
@@ -154,7 +267,7 @@ Definition modes_consistent : bool :=
   forallb (fun r => forallb (fun w => match fam_mode (fst w) with Some m => N.eqb m (snd w) | None => false end) (rwrites r)) rows.
 Definition declared_complete : bool :=
   forallb (fun s => match lookup_decl (fst (fst s)) declared with Some _ => true | None => false end) sites &&
-  Nat.eqb (length sites) (length declared).
+  Nat.eqb (List.length sites) (List.length declared).
 Definition phases_increasing : bool :=
   Z.ltb phase0 phase1 && Z.ltb phase1 phase2 && Z.ltb phase2 phase3 && Z.eqb phase3 default_order.
 Definition table_ok : bool := forallb row_ok rows && modes_consistent && declared_complete && phases_increasing.
@@ -280,8 +393,34 @@ Definition run_variant (ws : list wstmt) (v : val) : option vres :=
 Definition put_cell (c : list (N * value)) : val :=
   VL (map (fun x => match snd x with Val p _ => vN p end) c).
 
+(* statement-level check of the expansion used on the wire against the REGENERATED emission functions:
+   [code; [callable_none; property; reify; name_is_url]; [site indices of the statement's actions]] *)
+Fixpoint texts_eqb (a b : list text) : bool :=
+  match a, b with [] , [] => true | x :: a', y :: b' => text_eqb x y && texts_eqb a' b' | _, _ => false end.
+Definition check_emit (v : val) : option bool :=
+  match v with
+  | VL [VI code; VL [VI f1; VI f2; VI f3; VI f4]; VL ss] =>
+      olet idx := map_opt get_nat ss in
+      let a := mkDargs (negb (Z.eqb f1 0)) (negb (Z.eqb f2 0)) (negb (Z.eqb f3 0)) (negb (Z.eqb f4 0)) in
+      match nth_error generated_directives (Z.to_nat code) with
+      | None => Some false
+      | Some g =>
+          match g true a with
+          | None => Some false
+          | Some cs =>
+              let names := map (fun i => match nth_error rows i with Some r => rname r | None => [] end) idx in
+              Some (texts_eqb (map k_site cs) names &&
+                    forallb (fun ci => match nth_error rows (snd ci) with
+                                       | Some r => Z.eqb (rphase r) (k_order (fst ci)) && Bool.eqb (rdeferred r) (k_deferred (fst ci))
+                                       | None => false end) (combine cs idx))
+          end
+      end
+  | _ => None
+  end.
+
 (* case = [stmts; keys ([[fam; inst]..] : every key of interest); variants]
-   answer = [table flags [table_ok; all conform; no eager discriminator reads];
+   answer = [table flags [table_ok; all conform; no eager discriminator reads;
+                          every statement's actions = what the regenerated directive emits];
              per variant [outcome; executed sids; cells of the store at [keys];
                           flags [h0 distinct discriminators; executed = schedule; h1; h2;
                                  order of containers kept w.r.t. variant 0;
@@ -289,14 +428,16 @@ Definition put_cell (c : list (N * value)) : val :=
 Definition run_C08 (v : val) : val :=
   ret_or_bad (
     match v with
-    | VL [VL wstmts; VL wkeys; VL wvars] =>
+    | VL [VL wstmts; VL wkeys; VL wvars; VL wdirs] =>
         olet ws := map_opt get_wstmt wstmts in
+        olet emits := map_opt check_emit wdirs in
+        let emit_ok := forallb (fun b => b) emits in
         olet keys := map_opt get_key wkeys in
         olet vs := map_opt (run_variant ws) wvars in
         let conf := forallb (fun w => conforms (wrow w) (wst w)) ws in
         let eager := forallb (fun w => match weager w with [] => true | _ => false end) ws in
         let v0 := match vs with x :: _ => Some x | [] => None end in
-        Some (VL [VL [vbool table_ok; vbool conf; vbool eager];
+        Some (VL [VL [vbool table_ok; vbool conf; vbool eager; vbool emit_ok];
                   VL (map (fun r =>
                          VL [put_outcome (v_out r);
                              VL (map vN (sids (v_exec r)));
